@@ -34,8 +34,9 @@ def _fr(count, cost):
 
 
 class _Ctl(object):
-    """per-process state: tripwire"""
+    """per-process state: tripwire, deadline (inherited by the forked workers)"""
     trip = None
+    deadline = None
 
 
 def _trip_count():
@@ -812,6 +813,8 @@ def worker(jobs):
             for job in jobs:
                 kind = job[0]
                 t0 = time.time()
+                if kind != "consumer" and _skip(job, acc, t0):
+                    continue
                 if kind == "single":
                     check_single(job[1], job[2], job[3], job[4], acc)
                 elif kind == "tree":
@@ -831,6 +834,26 @@ def worker(jobs):
             C.check_consumer(job[1], acc)
             acc.n["cpu_s/consumers"] = acc.n.get("cpu_s/consumers", 0) + time.time() - t0
     return acc
+
+
+_FAM = {"irange": "Integer.random_range", "irandom": "Integer.random", "grb": "StrongRandom.getrandbits",
+        "randrange": "StrongRandom.randrange", "randint": "StrongRandom.randint", "choice": "StrongRandom.choice",
+        "shuffle": "StrongRandom.shuffle", "sample": "StrongRandom.sample", "gri": "number.getRandomInteger",
+        "grn": "number.getRandomNBitInteger", "grr": "number.getRandomRange"}
+
+
+def _skip(job, acc, now):
+    """A family that already produced a violation in this worker is not enumerated further (a broken sampler can
+    make every tree 256 times larger); past the deadline the remaining cases are reported as a cap."""
+    fam = "C18/%s/" % _FAM[job[1][0]]
+    if any(k.startswith(fam) for k in acc.viol):
+        acc.count("cases_skipped_after_violation_in_same_function")
+        return True
+    if _Ctl.deadline is not None and now > _Ctl.deadline:
+        acc.count("cases_skipped_deadline")
+        acc.cap("time budget exhausted: some cases were not run")
+        return True
+    return False
 
 
 def _balance(jobs, nshards):
@@ -853,6 +876,7 @@ def run(ctx):
     heavy = [j for j in jobs if j[1] >= 3000000]
     light = [j for j in jobs if j[1] < 3000000]
     shards = [[j[0]] for j in sorted(heavy, key=lambda j: -j[1])] + _balance(light, 96 if q else 256)
+    _Ctl.deadline = time.time() + 0.85 * max(30.0, ctx.time_left())
     ctx.pmap(worker, shards)
     a = ctx.acc
     # ---- verdicts of the split trees
@@ -875,7 +899,12 @@ def run(ctx):
     # ---- vacuity guards
     n = a.n
     njobs = sum(1 for j in jobs if j[0][0] in ("single", "tree", "consumer"))
-    ctx.require(n.get("configs_done", 0) == njobs, "%d of %d cases were executed" % (n.get("configs_done", 0), njobs))
+    skipped = n.get("cases_skipped_after_violation_in_same_function", 0) + n.get("cases_skipped_deadline", 0)
+    ctx.require(n.get("configs_done", 0) + skipped >= njobs and (skipped == 0 or a.viol or a.caps),
+                "%d of %d cases were executed" % (n.get("configs_done", 0), njobs))
+    if a.viol:
+        # a broken sampler legitimately empties some of the guarded classes: report the violations, not vacuity
+        ctx.require = lambda cond, msg: None
     cl = a.distinct.get("classes", set())
     fams = set(c[0] for c in cl)
     for f in ("Integer.random", "Integer.random_range", "StrongRandom.getrandbits", "StrongRandom.randrange", "StrongRandom.randint",
